@@ -89,8 +89,17 @@ def runEntryOp (inp out : Json) : Json :=
   -- a configuration file that cannot be loaded must be reported (C06); colliding keys must not make the output vary (C10)
   let cfg := jstr (jget (jget inp "env") "XDG_CONFIG_HOME")
   let badCfg := ["trailing1", "trailing2", "trailing3", "truncated", "wrongtype"].any (fun v => cfg == "$FIX/cfg/" ++ v)
+  -- the load is attempted on the path through traverse only: a bash ancestor completing a redirect target,
+  -- or a line the lexer rejects (bash, cmd-clink), answers before the configuration is read
+  let envv := jget inp "env"
+  let anc := jstr (jget inp "ancestor")
+  let risky (line : String) : Bool := line.toList.any (fun c => c == '<' || c == '>' || c == '\'' || c == '"' || c == '\\')
+  let earlyAnswer :=
+    -- (an ancestor no shell is known by: the search goes on through the processes that run the check itself)
+    ((anc == "bash" || anc == "") && !jisNull envv "COMP_LINE" && risky (jstr (jget envv "COMP_LINE"))) ||
+    ((anc == "cmd" || anc == "") && !jisNull envv "CARAPACE_COMPLINE" && risky (jstr (jget envv "CARAPACE_COMPLINE")))
   let fails := fails ++
-    (if badCfg && args.length ≥ 3 && !crashed && exit == 0 && (shell == "export" || shell == "elvish" || shell == "zsh") && !hasSub stdout "failed to load config" then
+    (if badCfg && !earlyAnswer && args.length ≥ 3 && !crashed && exit == 0 && (shell == "export" || shell == "elvish" || shell == "zsh") && !hasSub stdout "failed to load config" then
        [{ prop := "C06", code := "config_error_not_reported", detail := s!"{cfg}: {String.ofList (stdout.toList.take 300)}" }] else []) ++
     (if jbool out "repeatDiffers" then
        [{ prop := "C10", code := "output_varies", detail := s!"{cfg}: the same call gave different bytes" }] else [])
